@@ -22,6 +22,7 @@ func old[T any](x T) T { return x }
 func forall(lo, hi int, p func(i int) bool) bool { return true }
 func exists(lo, hi int, p func(i int) bool) bool { return true }
 func all[T any](p func(x T) bool) bool { return true }
+func sameblock[T any](a, b []T) bool { return true }
 func implies(a, b bool) bool { return true }
 func iff(a, b bool) bool { return true }
 func cond[T any](c bool, a, b T) T { return a }
@@ -200,6 +201,12 @@ func (e *Engine) checkSig(sp *synthPkg, text, src string) *types.Signature {
 		e.fatalf("%s: not a signature: %q", src, text)
 	}
 	return sig
+}
+
+func (e *Engine) typeFromText(pkgPath, text, src string) types.Type {
+	sp := e.synth(pkgPath)
+	sig := e.checkSig(sp, "func(x "+text+") bool", src)
+	return sig.Params().At(0).Type()
 }
 
 type checked struct {
@@ -711,8 +718,10 @@ func (c *EvalCtx) call(n *ast.CallExpr) (string, types.Type) {
 			return name, rt
 		}
 		t := fmt.Sprintf("(%s %s)", name, strings.Join(args, " "))
-		for _, f := range vc.typeFacts(t, sig.Results().At(0).Type(), "", 1) {
-			vc.assume("true", f)
+		if len(c.bound) == 0 {
+			for _, f := range vc.typeFacts(t, sig.Results().At(0).Type(), "", 1) {
+				vc.assume("true", f)
+			}
 		}
 		return t, rt
 	}
@@ -837,10 +846,21 @@ func (c *EvalCtx) ghostCall(name string, n *ast.CallExpr, rt types.Type) (string
 			vc.emit(fmt.Sprintf("(assert (forall ((%s Int)) (! (=> (>= %s 0) (= (%s (+ %s 1)) (+ (%s %s) %s))) :pattern ((%s (+ %s 1))) :pattern ((%s %s)))))", v, v, fn, v, fn, v, body, fn, v, fn, v))
 		}
 		return fmt.Sprintf("(%s %s)", fn, k), rt
+	case "sameblock":
+		a, _ := c.expr(n.Args[0])
+		b, _ := c.expr(n.Args[1])
+		return fmt.Sprintf("(= (s-arr %s) (s-arr %s))", a, b), rt
 	case "fresh":
 		a, at := c.expr(n.Args[0])
 		if c.resultAlloc == "" {
-			c.fail("fresh() only in postconditions")
+			// inside the body: allocated since entry (or the nil block)
+			if c.fr == nil || c.fr.entry == nil {
+				c.fail("fresh() not available here")
+			}
+			if _, isSl := at.Underlying().(*types.Slice); isSl {
+				a = fmt.Sprintf("(s-arr %s)", a)
+			}
+			return fmt.Sprintf("(or (= %s 0) (and (>= %s %s) (< %s %s)))", a, a, c.fr.entry.alloc, a, c.st.alloc), rt
 		}
 		if _, isSl := at.Underlying().(*types.Slice); isSl {
 			a = fmt.Sprintf("(s-arr %s)", a)
@@ -873,8 +893,7 @@ func (c *EvalCtx) ghostCall(name string, n *ast.CallExpr, rt types.Type) (string
 		inst := c.instanceOf(n)
 		t := inst.TypeArgs.At(0)
 		tag := c.x.sortTag(t)
-		vc.uf("box_"+tag, []string{"Int", vc.sortOf(t)}, "Int")
-		vc.uf("unbox_"+tag, []string{"Int"}, vc.sortOf(t))
+		c.x.declBox(t)
 		return fmt.Sprintf("(unbox_%s %s)", tag, a), t
 	case "haskey":
 		m, mt := c.expr(n.Args[0])
